@@ -33,7 +33,7 @@ ASSUMPTIONS = [
 TIMEOUT = {"quick": 400, "thorough": 2400}
 REQUIRED = {"fold:direct_calls": 2000, "fold:multi_wrap": 500, "fold:from_samplers": 2000, "posterior_points_checked": 20000,
             "gradient_points_checked": 2000, "limit_programs": 30, "limit_ops:set_non_negative_off_after_boundaries": 3,
-            "limit_ops:reload": 8, "start_validation_checks": 20, "momentum_sign_checks": 1000, "trajectory:with_folds": 300}
+            "limit_ops:reload": 8, "start_validation_checks": 20, "momentum_sign_checks": 1000, "trajectory:with_folds": 300, "gibbs_proposals:judged": 5000, "gibbs_proposals:folded_from_below": 200}
 
 
 def jobs(tier, seed):
@@ -154,6 +154,71 @@ class LimitWatcher:
         return self.fn(t)
 
 
+class RngProxy:
+    """Stands in for a Parameter's generator and records what normal() returned: the raw, unfolded proposal is then an observed
+    quantity.  Everything else (bit_generator, other draws) is the real generator's."""
+
+    def __init__(self, inner):
+        self._inner = inner
+        self.normals = []
+
+    def normal(self, *a, **k):
+        v = self._inner.normal(*a, **k)
+        self.normals.append(v)
+        return v
+
+    def __getattr__(self, name):
+        return getattr(self._inner, name)
+
+
+class ProposalMonitor:
+    """Post-condition on the 1-D proposal functions of the Gibbs Parameter: the value handed back is the observed raw normal draw
+    brought into the limits the harness knows to be in force (shadow model) by the identity / the symmetric fold / the fold at zero.
+    Judged only when exactly one scalar normal draw was observed during the call (otherwise counted as not judged)."""
+
+    def __init__(self, rec):
+        self.rec = rec
+        self.limits = {}     # id(Parameter) -> (lower, upper) in force according to the harness
+        self.ctx = {}
+        self.budget = 6000
+
+    def pre(self, par):
+        if isinstance(par.rng, RngProxy):
+            del par.rng.normals[:]
+
+    def post(self, result, par):
+        if not isinstance(par.rng, RngProxy) or id(par) not in self.limits:
+            return
+        if len(par.rng.normals) != 1 or np.ndim(par.rng.normals[0]) != 0:
+            self.rec.count("gibbs_proposals:not_judged")
+            return
+        raw = float(par.rng.normals[0])
+        lo, hi = self.limits[id(par)]
+        out = float(result)
+        self.rec.count("gibbs_proposals:judged")
+        if np.isinf(lo) and np.isinf(hi):
+            ok, want = out == raw, raw
+        elif np.isinf(hi):        # non-negativity only: fold at zero
+            want = abs(raw - lo) + lo
+            ok = abs(out - want) <= 4 * np.spacing(max(abs(raw), 1e-300))
+        else:
+            if raw < lo or raw > hi:
+                self.rec.count("gibbs_proposals:folded")
+            if self.budget <= 0:
+                return
+            self.budget -= 1
+            img, q, wall = ref_fold(raw, lo, hi)
+            t_ = tol_for(raw, lo, hi)
+            want = float(img)
+            err = abs(Fraction(out) - img)
+            ok = err <= Fraction(t_) + 2 * min(wall, Fraction(t_)) if t_ < hi - lo else (lo - t_ <= out <= hi + t_)
+            if raw < lo:
+                self.rec.count("gibbs_proposals:folded_from_below")
+        self.rec.check(bool(ok), "fold-not-symmetric",
+                       lambda: f"Gibbs proposal: the raw draw {raw!r} came back as {out!r}; the symmetric fold into the limits in force [{lo!r}, {hi!r}] is {want!r}",
+                       {**self.ctx, "raw": raw, "lower": lo, "upper": hi})
+
+
 class TrajectoryMonitor:
     """Post-condition on HamiltonianChain.bounded_leapfrog.  While the trajectory runs, the gradient callable of the chain is
     wrapped so that every position the integrator visits (and the gradient it obtained there) is recorded.  Afterwards the
@@ -246,6 +311,11 @@ def run_job(job, rec):
     attach(Bounds, "reflect_momenta", post=lambda out, self, theta: fm.judge(self, theta, out[0], out[1]))
     tm = TrajectoryMonitor(rec)
     attach(HamiltonianChain, "bounded_leapfrog", pre=tm.pre, post=tm.post)
+    from inference.mcmc.gibbs import Parameter
+
+    pm = ProposalMonitor(rec)
+    for name_ in ("standard_proposal", "abs_proposal", "boundary_proposal"):
+        attach(Parameter, name_, pre=pm.pre, post=pm.post)
 
     # ------------------------------------------------ direct calls of the fold map
     for c in range(job["n_direct"]):
@@ -311,6 +381,8 @@ def run_job(job, rec):
         rec.context = ctx
 
         def refresh():
+            pm.limits.clear()
+            pm.ctx = ctx
             for i in range(d):
                 lo_i, hi_i = -np.inf, np.inf
                 if shadow_b[i] is not None:
@@ -318,6 +390,10 @@ def run_job(job, rec):
                 if shadow_n[i]:
                     lo_i = max(lo_i, 0.0)
                 W.lo[i], W.hi[i] = lo_i, hi_i
+                par = ch.params[i]
+                if not isinstance(par.rng, RngProxy):
+                    par.rng = RngProxy(par.rng)      # (again after a reload: the parameters are new objects then)
+                pm.limits[id(par)] = (float(lo_i), float(hi_i))
 
         failed = False
         for step in range(int(rng.integers(4, 11))):
